@@ -9,6 +9,8 @@ def proj_full(op, line):
 
 
 def proj_c01(op, line):
+    if op.startswith("tcp ") or op.startswith("udp "):
+        return line  # live-receiver operations: the surfaced services are compared in full
     t = line.split(" ")
     if t[0] == "ok":
         return "ok " + (t[1] if len(t) > 1 else "")
@@ -23,6 +25,8 @@ class Prop:
     harness = "wire"
     # streams: (value of the harness's -prop flag, model driver executable, share of the budget)
     streams = None
+    # further streams run by ANOTHER harness: (harness, -prop value, model driver or None, {tier: budget})
+    extra_streams = []
     harness_go = "go"
     harness_test = False
     harness_pkg = None
@@ -55,7 +59,11 @@ class C01(Prop):
             "exact-capacity slice and as a prefix of a 0xAA-filled and a pseudo-random-filled larger array "
             "(3 operations per input). distinct = distinct (decoder, input bytes) pairs; all are non-trivial "
             "(each reaches the real decoder).")
-    assumptions = ["live UDP/TCP receivers are covered by C16's socket harness; this check covers the decoders they call"]
+    extra_streams = [("sock", "C01live", "knxdrv", {"quick": 300, "thorough": 3000})]
+    assumptions = ["the live UDP/TCP receivers get the malformed-frame classes of this property through the socket harness "
+                   "(stream C01live: header-only frames of every service, truncations with an honest and with a lying header, "
+                   "perturbed embedded lengths, zero-length description blocks, each sequence followed by frames that must "
+                   "still arrive); segmentation and ordering of well-formed streams are C16's"]
     technique = "Lean 4 proof (Safe-decoder refinement over Go slices with spare capacity) + differential correspondence"
     level_text = ("Theorems for ALL slices (any length, capacity, content behind the length): knxnet.Unpack and cemi.Unpack "
                   "return (no panic, no hang), consume <= len on success, and depend only on the visible bytes; the model "
@@ -233,7 +241,10 @@ class C15(Prop):
     rule = ("values as for C02 plus the oversize family (info/app data 256..600 bytes, names >= 30 chars, non-Latin-1 "
             "names, hardware addresses of 0..8 bytes, out-of-range TPCI fields); each packed into three buffers of exactly "
             "the reported size pre-filled with 0x00 / 0xFF / random and followed by 16 guard bytes. distinct = distinct "
-            "rendered values.")
+            "rendered values. Stream C16router: the datagram handed to the network by RouterSocket.Send (real multicast "
+            "socket, observed by a second member of the group): its length equals the frame's size and its header's "
+            "total length, whatever was sent before on that socket (longer, shorter, equal).")
+    extra_streams = [("sock", "C16router", "knxdrv", {"quick": 150, "thorough": 1500})]
     technique = "Lean 4 proof (Size() arithmetic vs bytes written, all values incl. oversize) + three-prefill/guard-byte correspondence"
     level_text = ("Theorems for ALL values (no encodability hypothesis): bytes written = Size() for every sub-structure, message "
                   "and service; header total length = size+6 = datagram length; truncation rules. Prefill independence and "
@@ -399,12 +410,20 @@ class C09(Proto):
 class C10(Proto):
     id = "C10"
     lean_module = "Props.C10"
+    streams = [("C10", "knxdrv", 0.9), ("C10rt", "knxdrv", 0.1)]
+    extra_streams = [("sock", "C10live", None, {"quick": 60, "thorough": 600})]
     rule = ("the C03 / C04 / C09 scripts with Close injected at a random position (1..3 calls, spaced 0 / 1 s / 30 s; a call "
             "made while another is still waiting is skipped by the harness, see level note), optionally after the socket died "
             "(closed) or started failing, followed by a Send, a read and another Close 40 s later; synctest's end-of-bubble "
             "check fails the script if any goroutine is left blocked (leak), a 20 s real-time watchdog marks hangs. Trace "
             "compared exactly; monitors: Close returns within 2x response timeout, one disconnect request, nothing after "
-            "Close, Send fails, Inbound closed.")
+            "Close, Send fails, Inbound closed. REAL time (stream C10rt): 1..4 goroutines call Close at the same moment on a "
+            "tunnel over an in-memory socket whose write of the disconnect request takes 3 ms, with pending Sends / gateway "
+            "traffic / a reader: exactly one disconnect request, every Close returns, Inbound closed, Send fails, Close again "
+            "returns. REAL sockets (stream C10live): knx.NewTunnel over loopback UDP and TCP against a small gateway that may "
+            "send telegrams back to back; 1..4 concurrent closers; never more than one disconnect request, Close returns, "
+            "Inbound closes, Send fails, pending Sends return, and the goroutine count is back to what it was before the "
+            "tunnel was opened within 1 s.")
     technique = "Lean 4 proof (Close path lemmas + monotonicity of `done` over all label sequences) + exact trace correspondence and leak detection under testing/synctest"
     level_text = ("Theorems: first Close while connected sends one disconnect request and returns in the same instant with socket "
                   "and Inbound closed and the pending Send failed; during a reconnect it waits and returns when the attempt ends "
@@ -412,7 +431,8 @@ class C10(Proto):
                   "set transmits nothing (at most one disconnect request); Close after Close is a no-op; after it Send returns an "
                   "error at once and Inbound reads closed; no model process survives termination.")
     partial = ("data-race freedom and goroutine exit are Go-runtime facts: checked by synctest's leak detection on every script "
-               "(and the race detector), not proved; concurrent closers block on sync.Once and are not driven under virtual time")
+               "(and the race detector), not proved; concurrent closers block on sync.Once and are not driven under virtual "
+               "time: they run in real time (streams C10rt, C10live) and are observed, not proved")
 
 
 class C17(Proto):
@@ -484,11 +504,20 @@ class C16(Prop):
             "position, sent one byte per segment, and streams of 1..50 frames of every service type (structured generator, "
             "a quarter with a damaged body) coalesced at random; streams continued after a header that ends the receiver "
             "(header length / version / total length < 6); a sentinel frame ends every stream so that a stalled receiver is "
-            "told from a dropped frame; UDP sequences of 1..8 datagrams (valid, truncated, length octets pointing beyond the "
+            "told from a dropped frame; beside these a TCP and a UDP socket that sent one frame and then stay silent for "
+            "16.5 s (thorough: 65 s) must still surface a frame and accept a Send afterwards; UDP sequences of 1..8 datagrams (valid, truncated, length octets pointing beyond the "
             "datagram into what the previous one left in the reused array, random bytes), each followed by an awaited "
             "sentinel; Send of generated services observed as one datagram each; 1..8 goroutines x 40 Sends on one TCP "
             "socket re-parsed by the peer; Close with unread frames waiting (goroutine and channel end); the connect "
-            "request's HPAI for UDP/TCP x SendLocalAddress. distinct = operation lines.")
+            "request's HPAI for UDP/TCP x SendLocalAddress; the routing socket (multicast, loopback on, a second group "
+            "member as peer): every Send one datagram of exactly the frame after longer / shorter / equal ones, 4 "
+            "concurrent senders, datagrams from the peer surfaced once and in order, Close ends Inbound. "
+            "distinct = operation lines.")
+
+    def harness_cmd(self, binary, workdir, seed, budget, tier, flag=None):
+        cmd = Prop.harness_cmd(self, binary, workdir, seed, budget, tier, flag)
+        return cmd + ["-quiet", "65"] if tier == "thorough" else cmd
+
     technique = "Lean 4 proof (prefix-stability of the framing loop by strong induction => independence of every segmentation; reused-array independence from the Safe-decoder theorem) + loopback correspondence with the real sockets"
     level_text = ("Theorems: for EVERY list of segments, feeding them one by one gives the same services and receiver state as "
                   "feeding their concatenation (any cut positions, 1-byte dribble, empty segments, any coalescing); a stream of "
@@ -596,6 +625,20 @@ def run_once(P, tier, seed, budget, workdir, binary, drivers):
             d["stream"] = flag
         all_dis += dis
         total += n
+    for hname, flag, drvname, eb in P.extra_streams:
+        b = eb["thorough"] if budget >= P.budgets["thorough"] else eb["quick"]
+        stats, dis, n = run_stream(P, tier, seed, b, os.path.join(workdir, flag), binary[hname], drivers[drvname], flag)
+        merged["ops"] += stats.get("ops", 0)
+        merged["distinct"] += stats.get("distinct", 0)
+        for k in ("classes", "generated"):
+            for a, bb in (stats.get(k) or {}).items():
+                merged[k][a] = merged[k].get(a, 0) + bb
+        merged["samples"] += (stats.get("samples") or [])[:3]
+        merged["findings"] += stats.get("findings") or []
+        for d in dis:
+            d["stream"] = flag
+        all_dis += dis
+        total += n
     return merged, all_dis, total
 
 
@@ -645,7 +688,10 @@ def run(prop, tier, seed):
         ok, out = runner.lake_build(["knxdrv"])
         if not ok:
             raise InfraError("model driver does not build:\n" + out[-4000:])
-        proof_ok, proof_log = runner.lake_build([P.lean_module])
+        # the property's theorems and its source tie (Props/Tie/<id>.lean: the files the hand-written model
+        # stands for still have the reviewed text)
+        modules = [P.lean_module, "Props.Tie." + P.id]
+        proof_ok, proof_log = runner.lake_build(modules)
         gen_ok = True
         if any(d == "gendrv" for _, d, _ in (P.streams or [])):
             # gendrv executes the definitions regenerated from the source; when the source no longer
@@ -661,22 +707,25 @@ def run(prop, tier, seed):
             # breaks it too).  Second way: the facts recorded from the last reviewed tree (extract/baseline)
             # + the correspondence of the drivers built from them with the code as it is now.
             strict_log = proof_log
+            changed = runner.changed_declarations()
             if runner.restore_baseline():
-                ok2, log2 = runner.lake_build([P.lean_module])
+                ok2, log2 = runner.lake_build(modules)
                 g2 = True
                 if uses_gen and ok2:
                     g2, _ = runner.lake_build(["gendrv"])
                 if ok2 and g2:
                     strict_broken = dict(theorems=(runner.broken_theorems(strict_log)[:8] or ["lake build " + P.lean_module]),
-                                         log=strict_log[-2500:])
+                                         log=strict_log[-2500:], changed_declarations=changed[:40])
                     proof_ok, gen_ok, proof_log = True, True, log2
         thms, audit_ok, audit_log = [], False, ""
         if proof_ok:
             audit_ok, thms, audit_log = runner.audit(P.lean_module)
+            ok_t, thms_t, log_t = runner.audit("Props.Tie." + P.id)
+            audit_ok, thms, audit_log = audit_ok and ok_t and len(thms_t) == 1, thms + thms_t, audit_log + log_t
         forbidden = runner.grep_forbidden()
         leanchecker_ok = True
         if proof_ok and tier == "thorough":
-            rc, lc = runner.sh(["lake", "env", "leanchecker", P.lean_module], cwd=LEAN, timeout=3600)
+            rc, lc = runner.sh(["lake", "env", "leanchecker"] + modules, cwd=LEAN, timeout=3600)
             leanchecker_ok = rc == 0
             if not leanchecker_ok:
                 audit_log += "\nleanchecker: " + lc[-2000:]
@@ -684,13 +733,15 @@ def run(prop, tier, seed):
         binary = {"main": os.path.join(workdir, os.path.basename(built))}
         shutil.copy(built, binary["main"])
         binary[P.harness] = binary["main"]
-        for extra in getattr(P, "extra_harness", []):
+        for extra in list(getattr(P, "extra_harness", [])) + sorted({h for h, _, _, _ in P.extra_streams}):
+            if extra in binary:
+                continue
             b2 = runner.build_harness(extra)
             binary[extra] = os.path.join(workdir, extra)
             shutil.copy(b2, binary[extra])
         drivers = {}
         drivers[None] = None
-        for dn in sorted({d for _, d, _ in (P.streams or [(P.id, "knxdrv", 1.0)]) if d}):
+        for dn in sorted({d for _, d, _ in (P.streams or [(P.id, "knxdrv", 1.0)]) if d} | {d for _, _, d, _ in P.extra_streams if d}):
             src = os.path.join(LEAN, ".lake", "build", "bin", dn)
             if dn == "gendrv" and not gen_ok:
                 drivers[dn] = None  # the oracle of that stream still runs on the implementation
@@ -765,6 +816,7 @@ def run(prop, tier, seed):
             replay_cmd="cd %s && VERIF_SEED=%d ./check %s %s" % (ROOT, f.get("seed", seed), prop, tier),
             more=[dict(kind=g["kind"], input=g["op"][:2000], detail=g["detail"][:1000]) for g in new_findings[1:10]],
             proof_obligation_broken=(broken_names if proof_broken else []) + (strict_broken["theorems"] if strict_broken else []),
+            edited_declarations=(strict_broken.get("changed_declarations", []) if strict_broken else []),
             correspondence_disagreements=all_dis[:5]))
         lines.append("VIOLATION property=%s replay=%s" % (prop, path))
         verdict = 1
@@ -783,7 +835,9 @@ def run(prop, tier, seed):
     elif strict_broken:
         lines.append("NOTE: property=%s the theorems over the facts regenerated from the source no longer check (%s); "
                      "the recorded model (extract/baseline) and its correspondence with the code as it is now hold on "
-                     "%d operations, no failing input" % (prop, ", ".join(strict_broken["theorems"][:3]), evaluations))
+                     "%d operations, no failing input%s" % (prop, ", ".join(strict_broken["theorems"][:3]), evaluations,
+                                                           ("; edited declarations: " + "; ".join(strict_broken["changed_declarations"][:6]))
+                                                           if strict_broken.get("changed_declarations") else ""))
 
     ev = dict(
         property_id=prop, tier=tier, seed=seed, level="proof",
